@@ -96,17 +96,26 @@ func init() {
 		reps := 1 + c.Choose(3)
 		asDefaults := c.Bool()
 		earlier := c.Choose(2) == 1 // the same parser has read an INI file before, in which the option was named by another of its names
+		if si == 0 && ni == 0 && reps == 1 && !asDefaults && !earlier {
+			c13LateGroup(c, k)
+		}
 		kind := c13Kinds[k]
 		d := c13Decl(k)
 		section, name := c13Sections[si], c13Names[ni]
+		// repeated entries of one option may also sit in two sections that both reach it: the first before any header, the
+		// others under [Application Options] (they accumulate like repeated flags all the same)
+		split := section == "Application Options" && reps >= 2 && !earlier && c.Bool()
 		var ini strings.Builder
-		if section != "" {
+		if section != "" && !split {
 			fmt.Fprintf(&ini, "[%s]\n", section)
 		}
 		var vals []string
 		for i := 0; i < reps; i++ {
 			vals = append(vals, kind.Vals[i])
 			fmt.Fprintf(&ini, "%s = %s\n", name, kind.Vals[i])
+			if split && i == 0 {
+				fmt.Fprintf(&ini, "[%s]\n", section)
+			}
 		}
 		text := ini.String()
 		warmIni := ""
@@ -118,6 +127,12 @@ func init() {
 		var sel *decl.Opt
 		if known {
 			sel = ref.ResolveIniName(cands, name)
+		}
+		if split {
+			if c0, ok := ref.SectionOptions(d, "", "Application Options"); !ok || sel == nil || ref.ResolveIniName(c0, name) != sel {
+				c.Skip() // the name does not mean the same option in both sections
+			}
+			c.Hit("entries-in-two-sections")
 		}
 		// real: read the INI text
 		b1 := d.BuildTags()
@@ -263,7 +278,7 @@ func init() {
 		Body:       body,
 		Rule: "declaration whose names cross (A's long name = B's field name = C's ini-name up to case; the same field name in the parser, a namespaced group, a command and a sub-subcommand; short-only, long-only and no-ini options; an ini-name inside a command's subgroup) " +
 			"x 17 option types / value notations (incl. map values containing :\" in the middle, a 70000-byte value) (incl. map values written in INI quoting, some containing colons, against their unquoted command-line equivalent) x 18 section spellings (incl. a namespaced group nested in a namespaced group, addressed by its own section) (incl. a command whose name has upper-case letters: command names are matched exactly, group descriptions case-insensitively) (global, group description in three casings, command, command.group in two casings, sub-subcommand path, wrong casings and unknown paths) x 45 entry names (every naming of every option in several casings, namespaced long names, unknown) " +
-			"x 1..3 repeated entries x normal / as-defaults mode x {fresh parser, parser that has already read a file naming the same option by another of its names (a later read replaces, like a later command line)}; oracle: (a) the documented priority ini-name > field > namespaced long > short selects the option, unknown names/sections are errors, (b) differential: a fresh parser given the equivalent --name=value flags must end in the same option struct; " +
+			"x 1..3 repeated entries (also spread over two sections that reach the same option) x normal / as-defaults mode x {fresh parser, parser that has already read a file naming the same option by another of its names (a later read replaces, like a later command line)}; oracle: (a) the documented priority ini-name > field > namespaced long > short selects the option, unknown names/sections are errors, (b) differential: a fresh parser given the equivalent --name=value flags must end in the same option struct; " +
 			"distinct = distinct (type, section, name, repetitions, error class, options touched)",
 		Assumptions:  []string{"values without edge blanks", "a flag entry 'name = false' has no command-line equivalent and is not used"},
 		RequiredHits: []string{"selected-by:ini-name", "selected-by:field", "selected-by:long", "selected-by:short", "no-such-option-or-section", "repeated", "as-defaults"},
@@ -289,4 +304,39 @@ func c13NameClass(name string) string {
 		return "empty"
 	}
 	return "named"
+}
+
+// c13LateGroup: sections are looked up in the parser as it is now. After a first read, a group is added below an existing
+// group with (*Group).AddGroup; a second read on the same parser must find it by its description like any other.
+func c13LateGroup(c *explore.Ctx, k int) {
+	d := c13Decl(k)
+	b := d.BuildTags()
+	if b.Err != nil {
+		return
+	}
+	if err := flags.NewIniParser(b.Parser).Parse(strings.NewReader("[Grp]\n[cmd.Sub Group]\n")); err != nil {
+		c.Fail("late-group|first-read-rejected", err.Error())
+		return
+	}
+	type lateOpts struct {
+		Zz string `long:"zz"`
+	}
+	where := []string{"Grp", "Application Options"}[k%2]
+	g := b.Parser.Command.Group.Find(where)
+	if g == nil {
+		c.Fail("late-group|harness", "group not found: "+where)
+		return
+	}
+	data := &lateOpts{}
+	if _, err := g.AddGroup("Late Group", "", data); err != nil {
+		c.Fail("late-group|AddGroup-rejected", err.Error())
+		return
+	}
+	err := flags.NewIniParser(b.Parser).Parse(strings.NewReader("[Late Group]\nZz = v\n"))
+	c.Hit("group-added-between-two-reads")
+	if err != nil {
+		c.Fail("section-of-a-group-added-after-a-first-read-not-found", map[string]interface{}{"added_below": where, "error": err.Error()})
+	} else if data.Zz != "v" {
+		c.Fail("section-of-a-group-added-after-a-first-read-not-applied", map[string]interface{}{"added_below": where, "value": data.Zz})
+	}
 }
